@@ -1,4 +1,5 @@
 import Tv.Lemmas.C16
+import Tv.Lemmas.C16Cal
 import Tv.Generated
 /-!
 # C16 — Not-a-Time is absorbing; unit changes agree with the calendar
@@ -481,5 +482,22 @@ example : dtShift (fun _ _ => none) 1 .s 5 ⟨0, -1⟩ = .ok 4 ∧ dtDiff .ms 5 
     ∧ timeAdd 43200000000000 ⟨0, 5400000000000⟩ = .ok 48600000000000 := by decide
 /-- a NaT duration may carry any length -/
 example : (⟨i32Min, 12345⟩ : TD).isNat = true ∧ tdNeg ⟨i32Min, 12345⟩ = .ok ⟨i32Min, 12345⟩ := by decide
+
+/-! ## the calendar of the specification is consistent -/
+
+/-- **calendar round trip.** The proleptic Gregorian date the specification assigns to a day count
+maps back to that day count — for every integer day count. (The only non-linear fact, that the
+year-of-era estimate is right for each of the 146097 days of an era, is checked by kernel
+evaluation in `Lemmas/C16CalDoe`.) -/
+theorem calendar_roundtrip (z : Int) :
+    Spec.daysFromCivil (Spec.civilFromDays z).1 (Spec.civilFromDays z).2.1 (Spec.civilFromDays z).2.2 = z :=
+  Spec.daysFromCivil_civilFromDays z
+
+/-- distinct day counts have distinct dates -/
+theorem civilFromDays_injective (a b : Int) (h : Spec.civilFromDays a = Spec.civilFromDays b) : a = b := by
+  have ha := calendar_roundtrip a
+  have hb := calendar_roundtrip b
+  rw [h] at ha
+  exact ha.symm.trans hb
 
 end Tv.C16
